@@ -9,7 +9,7 @@ LEVEL = 'exploration'
 RULE = ('case = one read/write of size 1/2/4/8 in a random history (200 ops) over a generated controller list '
         '(1-6 devices, sizes 0..64 incl. odd, adjacent/gapped/overlapping/ending at 2^32/straddling 2^32/above 4 GB: physical '
         'addresses are 40 bits); after every op all '
-        'devices are compared byte for byte with a first-match-wins list-of-bytearrays model; non-trivial = the op '
+        'devices are compared byte for byte with a first-match-wins list-of-bytearrays model; controllers whose window is longer than their RAM (bytes beyond the RAM behave like a device end); non-trivial = the op '
         'hits a mapped device; distinct = (op, size, position class relative to device end/start, layout class, '
         'hit-device index)')
 ASSUMPTIONS = ['the 15-line sequential device model in vf/props/c16.py is the meaning of the property',
